@@ -22,7 +22,7 @@ fn exempt_tools() -> Vec<String> {
 fn wild_response(rng: &mut Rng, serial: &mut u64, last: bool) -> (Resp, &'static str) {
     let ncalls = if last && rng.chance(2, 3) { 0 } else { rng.below(3) as usize };
     let wild = rng.chance(1, 4);
-    let events: Vec<Ev> = gen_response(rng, serial, ncalls, wild, &["ls", "grep", "read", "write", "nope", "write!", "read?", "bash"]);
+    let events: Vec<Ev> = gen_response(rng, serial, ncalls, wild, &["ls", "grep", "read", "write", "nope", "write!", "read?", "bash", "apply_patch", "apply_patch"]);
     let rid = format!("resp_{serial}");
     let has_id = rng.chance(5, 6);
     let mut body = build_sse(rng, &events, if has_id { Some(&rid) } else { None }, true, &[]);
@@ -89,6 +89,12 @@ fn gen_input(rng: &mut Rng, k: u64) -> (Posted, String) {
         }
         3 => {
             let v = json!({"tool": "write", "args": {"bogus": true}});
+            (Posted::Tool(v.clone()), v.to_string())
+        }
+        6 | 7 => {
+            // apply_patch with patches as models write them (well formed, failing, malformed)
+            let patch = rng.pick(crate::c16::PATCHES).replace("{k}", &k.to_string());
+            let v = json!({"tool": "apply_patch", "args": {"patch": patch}});
             (Posted::Tool(v.clone()), v.to_string())
         }
         4 => {
@@ -434,7 +440,7 @@ fn lifecycle_cases(rep: &mut Report, model: &mut Model, rng: &mut Rng, n: u64) {
 
 async fn wait_ended(data_dir: &std::path::Path, session_id: &str, linked: bool) {
     let want = if linked { "continuity_run_ended" } else { "session_ended" };
-    for _ in 0..1500 {
+    for _ in 0..700 {
         let text = std::fs::read_to_string(data_dir.join("events.jsonl")).unwrap_or_default();
         if text.lines().any(|l| l.contains(want) && l.contains(session_id)) {
             return;
